@@ -10,13 +10,13 @@ from . import estimator as E
 LETTERS = ['a', 'b', 'c', 'd', 'e', 'f', 'g', 'h']
 ALL_CLASSES = ['BinaryCarver', 'ContinuousCarver', 'MulticlassCarver', 'Discretizer', 'QualitativeDiscretizer',
                'QuantitativeDiscretizer', 'ContinuousDiscretizer', 'OrdinalDiscretizer', 'CategoricalDiscretizer',
-               'StringDiscretizer']
+               'StringDiscretizer', 'ChainedThenCarver']
 ACCEPTS = {
     'BinaryCarver': ('quanti', 'categ', 'ordinal'), 'ContinuousCarver': ('quanti', 'categ', 'ordinal'),
     'MulticlassCarver': ('quanti', 'categ', 'ordinal'), 'Discretizer': ('quanti', 'categ', 'ordinal'),
     'QualitativeDiscretizer': ('categ', 'ordinal'), 'QuantitativeDiscretizer': ('quanti',),
     'ContinuousDiscretizer': ('quanti',), 'OrdinalDiscretizer': ('ordinal',), 'CategoricalDiscretizer': ('categ',),
-    'StringDiscretizer': ('categ',),
+    'StringDiscretizer': ('categ',), 'ChainedThenCarver': ('quanti', 'categ'),
 }
 
 
@@ -155,6 +155,26 @@ def random_object_spec(rng, cls=None, n=None, nfeat=None, degenerate=False):
         if first_lv is None:
             first_lv = lv
     spec = {'cls': cls, 'features': feats, 'y': target_for(rng, cls, first_lv, n)}
+    if cls == 'ChainedThenCarver':
+        # one hierarchical feature: leaves -> groups -> top (never-observed members included)
+        leaves = ['Low-', 'Low', 'Low+', 'Medium-', 'Medium', 'Medium+', 'High-', 'High', 'High+', 'ALONE'][:rng.randint(5, 10)]
+        lvl1 = {}
+        for v in leaves:
+            g = 'Lows' if v.startswith('Low') else 'Mediums' if v.startswith('Medium') else 'Highs' if v.startswith('High') else 'ALONE'
+            lvl1.setdefault(g, []).append(v)
+        lvl1 = {g: mem + ([g] if g not in mem else []) for g, mem in lvl1.items()}
+        lvl2 = {}
+        for g in lvl1:
+            top = 'Worst' if g in ('Lows', 'Mediums') else 'Best'
+            lvl2.setdefault(top, []).append(g)
+        lvl2 = {t: mem + [t] for t, mem in lvl2.items()}
+        w = [rng.choice([0, 1, 2, 4, 8]) for _ in leaves]
+        if sum(w) == 0:
+            w[0] = 4
+        pool = [v for v, k in zip(leaves, w) for _ in range(k)]
+        hv = [None if rng.random() < 0.08 else rng.choice(pool) for _ in range(n)]
+        feats['h0'] = {'kind': 'categ', 'values': hv, 'chained': True}
+        spec['chained_orders'] = [lvl1, lvl2]
     mf = rng.choice([[1, 10], [3, 20], [1, 5], [1, 4], [3, 10], [1, 20]])
     spec['params'] = {
         'sort_by': rng.choice(['cramerv', 'tschuprowt']),
